@@ -275,7 +275,7 @@ theorem resync_one_step (cfg : Cfg) (evs : List Ev) (hn : (run cfg evs).chan ≠
     (hl : (run cfg evs).live = true) (hs : (run cfg evs).susp = false) :
     Synced (next cfg (run cfg evs) (.step .a .none)).1 := by
   rw [next_step_a cfg _ _ hg hst hs]
-  exact replicaStep_none_syncs cfg _ (full_run cfg evs).a hn hl
+  exact replicaStep_none_syncs cfg _ (full_run cfg evs).a hst hn hl
 
 /-- The same for a loop parked on an offline follower: the online notification alone resumes it
 and, without a further fault, the channel ends synced. -/
@@ -284,14 +284,54 @@ theorem resync_online (cfg : Cfg) (evs : List Ev) (hn : (run cfg evs).chan ≠ .
     (hs : (run cfg evs).susp = true) :
     Synced (next cfg (run cfg evs) (.online .a .none)).1 := by
   simp only [next, hg, Ev.who, peerEv, hst, hs, Bool.false_eq_true, if_false, if_true]
-  exact replicaStep_none_syncs cfg _ (invA_mk (full_run cfg evs).a rfl rfl rfl rfl rfl rfl rfl rfl hst.symm) hn rfl
+  exact replicaStep_none_syncs cfg _ (invA_mk (full_run cfg evs).a rfl rfl rfl rfl rfl rfl rfl rfl hst.symm) rfl hn rfl
 
-/-- A synced channel stays synced under fault-free steps. -/
+/-- A synced channel stays synced under fault-free steps: unconditionally in the tree as it is (where a
+channel that is out of step stays `ready` and wedged); in the repaired shape of Replica's else-branch
+when the channel is in step (`dz = false`) — otherwise the mismatch forces a handshake, see
+`resync_mismatch_forces_handshake`. -/
 theorem resync_stays_synced (cfg : Cfg) (evs : List Ev) (h : Synced (run cfg evs))
+    (hm : cfg.mfail = false ∨ (run cfg evs).dz = false)
     (hg : (run cfg evs).gone = false) (hst : (run cfg evs).stopped = false) (hs : (run cfg evs).susp = false) :
     Synced (next cfg (run cfg evs) (.step .a .none)).1 := by
   rw [next_step_a cfg _ _ hg hst hs]
-  exact replicaStep_none_stays cfg _ h
+  have hb := full_run cfg evs
+  refine replicaStep_none_stays cfg _ hb.a hst h ?_
+  rcases hm with hm | hm
+  · exact Or.inl hm
+  · exact Or.inr (hb.a.sync h.1 hm (by rw [h.2]; intro e; cases e))
+
+/-- Repaired shape of Replica's else-branch: an event of follower A that ends in the mismatched-answer
+branch leaves the channel in `failure`, so the next replica call runs the handshake (`resync_one_step`). -/
+theorem resync_mismatch_forces_handshake (cfg : Cfg) (hm : cfg.mfail = true) (evs : List Ev) (f : Fault)
+    (hg : (run cfg evs).gone = false) (hst : (run cfg evs).stopped = false) (hs : (run cfg evs).susp = false)
+    (ho : (next cfg (run cfg evs) (.step .a f)).2 = .mismatch) :
+    (next cfg (run cfg evs) (.step .a f)).1.chan = .failure := by
+  rw [next_step_a cfg _ _ hg hst hs] at ho ⊢
+  exact replicaStep_mismatch_fails cfg _ f hm ho
+
+/-- Repaired shape: a storage fault on the follower (its Put fails while the stream is healthy) no longer
+wedges the channel. From a synced, in-step channel with data pending: the call with the Put fault and
+ONE further fault-free call end synced, with the refused message re-sent, appended byte-identical and
+acknowledged — no stream fault needed. (In the tree as it is this is false: `Neg.put_fault_wedges_channel`.) -/
+theorem resync_after_put_fault (cfg : Cfg) (hm : cfg.mfail = true) (evs : List Ev) (hsy : Synced (run cfg evs))
+    (hd : (run cfg evs).dz = false) (hg : (run cfg evs).gone = false) (hst : (run cfg evs).stopped = false)
+    (hl : (run cfg evs).live = true) (hs : (run cfg evs).susp = false)
+    (hp : (run cfg evs).F.app < (run cfg evs).L.app) :
+    Synced (run cfg (evs ++ [.step .a .put, .step .a .none])) ∧
+    (run cfg (evs ++ [.step .a .put, .step .a .none])).F.app = (run cfg evs).F.app + 1 ∧
+    (run cfg (evs ++ [.step .a .put, .step .a .none])).gack = (run cfg evs).F.app + 1 ∧
+    (run cfg (evs ++ [.step .a .put, .step .a .none])).F.get ((run cfg evs).F.app + 1) =
+      (run cfg evs).L.get ((run cfg evs).F.app + 1) := by
+  have hb := full_run cfg evs
+  have hf := replicaStep_flags cfg (run cfg evs) .put hl hs
+  have e1 : run cfg (evs ++ [.step .a .put, .step .a .none]) =
+      (replicaStep cfg (replicaStep cfg (run cfg evs) .put).1 .none).1 := by
+    have : evs ++ [Ev.step .a .put, Ev.step .a .none] = (evs ++ [Ev.step .a .put]) ++ [Ev.step .a .none] := by simp
+    rw [this, run_snoc, run_snoc, next_step_a cfg _ _ hg hst hs,
+      next_step_a cfg _ _ (hf.2.2.2.trans hg) (hf.2.2.1.trans hst) hf.2.1]
+  rw [e1]
+  exact replicaStep_after_put_fault cfg _ hb.a hst hsy hd hp hl hm
 
 /-- Liveness as a post-condition, repeated-fault case: after ANY history — any number and mix of
 faults — two consecutive fault-free replica calls of a live, non-parked, registered follower end with
@@ -390,7 +430,9 @@ theorem ackCond_eq (a r : Int) : C08.ackCond a r = decide (a = r) := rfl
 theorem replica_ack_arg : C08.replicaAckArg = "resp.AckIndex" := rfl
 
 theorem replica_calls : C08.replicaCalls =
-    ["cli.Send", "state.Store", "cli.Recv", "state.Store", "r.SetAckIndex"] := rfl
+    (if C08.mismatchSetsFailure then ["cli.Send", "state.Store", "cli.Recv", "state.Store", "r.SetAckIndex", "state.Store"]
+     else ["cli.Send", "state.Store", "cli.Recv", "state.Store", "r.SetAckIndex"]) := by
+  simp only [C08.replicaCalls, C08.mismatchSetsFailure]; rfl
 
 theorem connect_calls : C08.connectCalls =
     ["state.Store", "encoding.JSONMarshal", "rpc.CreateOutgoingContextWithPairs", "replicaCli.Replica",
@@ -465,7 +507,7 @@ theorem isReady_reset_args : C08.isReadyResetArgs =
 set_option linter.unusedSimpArgs false in
 /-- the guard of ResetAppendIndex is the one the model is run with (`Cfg.fixed := aheadFixed`) -/
 theorem isReady_ahead (r a : Int) :
-    C08.aheadCond r (C08.nextReplicaIdx r) a = aheadFires { fixed := C08.aheadFixed } r a := by
+    C08.aheadCond r (C08.nextReplicaIdx r) a = aheadFires { fixed := C08.aheadFixed, mfail := C08.mismatchSetsFailure } r a := by
   simp only [C08.aheadCond, C08.aheadFixed, C08.nextReplicaIdx, aheadFires]
   first
     | rfl
@@ -538,7 +580,10 @@ theorem isReady_conds : C08.isReadyConds =
      (if C08.aheadFixed then "nextReplicaIdx > appendIdx" else "remoteLastReplicaAckIdx > appendIdx"),
      "newLocalReplicaIdx == nextReplicaIdx"] := by
   simp only [C08.isReadyConds, C08.aheadFixed]; rfl
-theorem replica_conds : C08.replicaConds = ["err != nil", "err != nil", "resp.AckIndex == resp.ReplicaIndex"] := rfl
+theorem replica_conds : C08.replicaConds =
+    (if C08.respErrChecked then ["err != nil", "err != nil", "resp.Err == \"\" && resp.AckIndex == resp.ReplicaIndex"]
+     else ["err != nil", "err != nil", "resp.AckIndex == resp.ReplicaIndex"]) := by
+  simp only [C08.replicaConds, C08.respErrChecked]; rfl
 theorem partitionReplica_conds : C08.partitionReplicaConds =
     ["replicator.IsReady() && replicator.Connect()", "seq >= 0", "err != nil"] := rfl
 theorem replicaLog_conds : C08.replicaLogConds = ["p.closed.Load()", "replicaIdx != appendIdx", "err != nil"] := rfl
@@ -568,35 +613,35 @@ example : NoLoss sample := by
   intro e he k hk
   subst hk
   simp [sample] at he
-example : Synced (run { fixed := true } sample) := by decide
-example : (run { fixed := true } sample).F.app = 2 ∧ (run { fixed := true } sample).gack = 2 ∧
-    (run { fixed := true } sample).F.get 1 = some [2] ∧ (run { fixed := true } sample).F2.app = 2 := by decide
+example : Synced (run { fixed := true, mfail := false } sample) := by decide
+example : (run { fixed := true, mfail := false } sample).F.app = 2 ∧ (run { fixed := true, mfail := false } sample).gack = 2 ∧
+    (run { fixed := true, mfail := false } sample).F.get 1 = some [2] ∧ (run { fixed := true, mfail := false } sample).F2.app = 2 := by decide
 /-- `resync_progress`'s hypotheses are satisfiable -/
-example : Synced (run { fixed := true } [.append [1], .step .a .none, .append [2]]) ∧
-    (run { fixed := true } [.append [1], .step .a .none, .append [2]]).F.app <
-      (run { fixed := true } [.append [1], .step .a .none, .append [2]]).L.app := by decide
+example : Synced (run { fixed := true, mfail := false } [.append [1], .step .a .none, .append [2]]) ∧
+    (run { fixed := true, mfail := false } [.append [1], .step .a .none, .append [2]]).F.app <
+      (run { fixed := true, mfail := false } [.append [1], .step .a .none, .append [2]]).L.app := by decide
 /-- `resync_handshake`'s hypotheses are satisfiable, in the branch that resets the follower -/
-example : (run { fixed := true } [.append [1], .step .a .none, .flose .a, .append [2], .step .a .none]).chan ≠ .ready ∧
-    (isReady { fixed := true } (run { fixed := true } [.append [1], .step .a .none, .flose .a, .append [2], .step .a .none]) .none).2 = true ∧
-    (isReady { fixed := true } (run { fixed := true } [.append [1], .step .a .none, .flose .a, .append [2], .step .a .none]) .none).1.F.ack = 0 := by
+example : (run { fixed := true, mfail := false } [.append [1], .step .a .none, .flose .a, .append [2], .step .a .none]).chan ≠ .ready ∧
+    (isReady { fixed := true, mfail := false } (run { fixed := true, mfail := false } [.append [1], .step .a .none, .flose .a, .append [2], .step .a .none]) .none).2 = true ∧
+    (isReady { fixed := true, mfail := false } (run { fixed := true, mfail := false } [.append [1], .step .a .none, .flose .a, .append [2], .step .a .none]) .none).1.F.ack = 0 := by
   decide
 /-- `resync_one_step`'s, `resync_online`'s and `resync_two_steps`' hypotheses are satisfiable -/
-example : (run { fixed := true } [.append [1], .step .a .send]).chan ≠ .ready ∧
-    (run { fixed := true } [.append [1], .step .a .send]).live = true ∧
-    (run { fixed := true } [.append [1], .step .a .send]).susp = false := by decide
-example : (run { fixed := true } [.offline .a, .step .a .none]).chan ≠ .ready ∧
-    (run { fixed := true } [.offline .a, .step .a .none]).susp = true := by decide
+example : (run { fixed := true, mfail := false } [.append [1], .step .a .send]).chan ≠ .ready ∧
+    (run { fixed := true, mfail := false } [.append [1], .step .a .send]).live = true ∧
+    (run { fixed := true, mfail := false } [.append [1], .step .a .send]).susp = false := by decide
+example : (run { fixed := true, mfail := false } [.offline .a, .step .a .none]).chan ≠ .ready ∧
+    (run { fixed := true, mfail := false } [.offline .a, .step .a .none]).susp = true := by decide
 /-- `expire_safe` is about a reachable situation: the expiry check stops a drained group, keeps an undrained one -/
-example : (run { fixed := true } [.join .b, .append [1], .step .a .none, .expire]).stopped = true ∧
-    (run { fixed := true } [.join .b, .append [1], .step .a .none, .expire]).stopped2 = false ∧
-    (run { fixed := true } [.join .b, .append [1], .step .a .none, .expire]).gone = false := by decide
+example : (run { fixed := true, mfail := false } [.join .b, .append [1], .step .a .none, .expire]).stopped = true ∧
+    (run { fixed := true, mfail := false } [.join .b, .append [1], .step .a .none, .expire]).stopped2 = false ∧
+    (run { fixed := true, mfail := false } [.join .b, .append [1], .step .a .none, .expire]).gone = false := by decide
 /-- `join_sound`: a follower added to a partition whose log holds un-released messages starts at the
 queue's ack and is sent the whole backlog -/
-example : (run { fixed := true } [.append [1], .append [2], .step .a .none, .join .b]).gack2 = -1 ∧
-    (run { fixed := true } [.append [1], .append [2], .step .a .none, .join .b, .step .b .none, .step .b .none]).F2.app = 1 := by
+example : (run { fixed := true, mfail := false } [.append [1], .append [2], .step .a .none, .join .b]).gack2 = -1 ∧
+    (run { fixed := true, mfail := false } [.append [1], .append [2], .step .a .none, .join .b, .step .b .none, .step .b .none]).F2.app = 1 := by
   decide
 /-- restoring an OLDER image after a newer one is expressible -/
-example : (run { fixed := true } [.append [1], .lsnap, .append [2], .lsnap, .append [3], .lrestore 0, .lrestore 1]).L.app = 0 := by
+example : (run { fixed := true, mfail := false } [.append [1], .lsnap, .append [2], .lsnap, .append [3], .lrestore 0, .lrestore 1]).L.app = 0 := by
   decide
 
 /-! ## 7. where the code violates the property -/
@@ -618,7 +663,7 @@ theorem reappend_before_handshake (cfg : Cfg) :
     (run cfg witnessB).L.get 5 = some [0xb5] ∧ (run cfg witnessB).F.get 5 = some [0xa5] ∧
     (run cfg witnessB).gack = 6 := by
   cases cfg with
-  | mk fixed => cases fixed <;> decide
+  | mk fixed mfail => cases fixed <;> cases mfail <;> decide
 
 /-- the full-strength agreement clause for histories with leader tail loss ("whenever the
 channel is synced, a position held by both holds the same bytes") does not hold, for either shape
@@ -640,16 +685,16 @@ def witnessD : List Ev :=
    .lsnap, .append [0xa4], .step .a .none, .lrestore 0, .step .a .none, .append [0xb4], .append [0xb5], .step .a .none]
 
 theorem follower_ahead_by_one :
-    Synced (run { fixed := false } witnessD) ∧
-    (run { fixed := false } witnessD).L.get 4 = some [0xb4] ∧ (run { fixed := false } witnessD).F.get 4 = some [0xa4] ∧
-    (run { fixed := false } witnessD).F.get 5 = some [0xb5] ∧ (run { fixed := false } witnessD).gack = 5 := by
+    Synced (run { fixed := false, mfail := false } witnessD) ∧
+    (run { fixed := false, mfail := false } witnessD).L.get 4 = some [0xb4] ∧ (run { fixed := false, mfail := false } witnessD).F.get 4 = some [0xa4] ∧
+    (run { fixed := false, mfail := false } witnessD).F.get 5 = some [0xb5] ∧ (run { fixed := false, mfail := false } witnessD).gack = 5 := by
   decide
 
 theorem follower_ahead_by_one_fixed :
-    Synced (run { fixed := true } witnessD) ∧
-    (run { fixed := true } witnessD).L.get 4 = none ∧ (run { fixed := true } witnessD).F.get 4 = some [0xa4] ∧
-    (run { fixed := true } witnessD).L.get 5 = some [0xb4] ∧ (run { fixed := true } witnessD).F.get 5 = some [0xb4] ∧
-    (run { fixed := true } witnessD).L.get 6 = some [0xb5] := by
+    Synced (run { fixed := true, mfail := false } witnessD) ∧
+    (run { fixed := true, mfail := false } witnessD).L.get 4 = none ∧ (run { fixed := true, mfail := false } witnessD).F.get 4 = some [0xa4] ∧
+    (run { fixed := true, mfail := false } witnessD).L.get 5 = some [0xb4] ∧ (run { fixed := true, mfail := false } witnessD).F.get 5 = some [0xb4] ∧
+    (run { fixed := true, mfail := false } witnessD).L.get 6 = some [0xb5] := by
   decide
 
 /-- (3) Two followers. Both have replicated 0..3; A also got 4..6; the leader loses its tail back to 3.
@@ -664,51 +709,87 @@ def witnessE : List Ev :=
    .append [0xa4], .append [0xa5], .append [0xa6], .step .a .none, .step .a .none, .step .a .none, .lrestore 0,
    .step .b .none, .step .a .none, .append [0xb7], .step .b .none, .append [0xb8], .step .b .none, .step .a .none, .step .a .none]
 
-theorem other_follower_moves_group (cfg : Cfg) :
-    (run cfg witnessE).chan2 = .ready ∧ (run cfg witnessE).stream2 = .up ∧ (run cfg witnessE).dz2 = true ∧
-    (run cfg witnessE).gack2 = 6 ∧ (run cfg witnessE).F2.app = 3 ∧ (run cfg witnessE).cons2 = 8 ∧
-    (run cfg witnessE).L.app = 8 ∧ (run cfg witnessE).F.app = 8 := by
-  cases cfg with
-  | mk fixed => cases fixed <;> decide
+/-- the history up to (and including) A's handshake: the moment `ResetAppendIndex` has moved B's group -/
+def witnessE0 : List Ev := witnessE.take 23
 
-/-- in that state the next message for B ends in the mismatched-answer branch again -/
-theorem mismatch_reachable (cfg : Cfg) :
-    (next cfg (run cfg (witnessE ++ [.append [0xb9]])) (.step .b .none)).2 = .mismatch := by
+/-- at that moment, in EITHER shape of Replica's else-branch: B's channel is `ready` on a live stream and
+the leader treats 4..6 as acknowledged by B, which holds 0..3 -/
+theorem other_follower_moves_group (cfg : Cfg) :
+    (run cfg witnessE0).chan2 = .ready ∧ (run cfg witnessE0).stream2 = .up ∧ (run cfg witnessE0).dz2 = true ∧
+    (run cfg witnessE0).gack2 = 6 ∧ (run cfg witnessE0).cons2 = 6 ∧ (run cfg witnessE0).F2.app = 3 ∧
+    (run cfg witnessE0).L.ack = 6 := by
   cases cfg with
-  | mk fixed => cases fixed <;> decide
+  | mk fixed mfail => cases fixed <;> cases mfail <;> decide
+
+/-- the next message for B ends in the mismatched-answer branch (either shape) -/
+theorem mismatch_reachable (cfg : Cfg) :
+    (next cfg (run cfg (witnessE0 ++ [.append [0xb7]])) (.step .b .none)).2 = .mismatch := by
+  cases cfg with
+  | mk fixed mfail => cases fixed <;> cases mfail <;> decide
+
+/-- the tree as it is: B's channel stays `ready`, every later message is refused, B never gets b7, b8 -/
+theorem other_follower_wedged (fixed : Bool) :
+    (run { fixed := fixed, mfail := false } witnessE).chan2 = .ready ∧ (run { fixed := fixed, mfail := false } witnessE).stream2 = .up ∧
+    (run { fixed := fixed, mfail := false } witnessE).gack2 = 6 ∧ (run { fixed := fixed, mfail := false } witnessE).F2.app = 3 ∧
+    (run { fixed := fixed, mfail := false } witnessE).cons2 = 8 ∧ (run { fixed := fixed, mfail := false } witnessE).F.app = 8 ∧
+    (next { fixed := fixed, mfail := false } (run { fixed := fixed, mfail := false } (witnessE ++ [.append [0xb9]])) (.step .b .none)).2 = .mismatch := by
+  cases fixed <;> decide
+
+/-- the repaired shape: the first refused message puts B's channel into `failure`; the forced handshake
+finds B behind the (moved) ack and resets B to 7: B gets b7 and b8 and the channel is in step again — but
+B's log now starts after 6: positions 4..6 (dropped by the leader at `ResetAppendIndex`, counted as
+acknowledged by B) never reach B. The wedge is gone, the unsound acknowledgement is not. -/
+theorem other_follower_repaired (fixed : Bool) :
+    (run { fixed := fixed, mfail := true } (witnessE ++ [.step .b .none])).chan2 = .ready ∧
+    (run { fixed := fixed, mfail := true } (witnessE ++ [.step .b .none])).stream2 = .up ∧
+    (run { fixed := fixed, mfail := true } (witnessE ++ [.step .b .none])).dz2 = false ∧
+    (run { fixed := fixed, mfail := true } (witnessE ++ [.step .b .none])).F2.ack = 6 ∧
+    (run { fixed := fixed, mfail := true } (witnessE ++ [.step .b .none])).F2.app = 8 ∧
+    (run { fixed := fixed, mfail := true } (witnessE ++ [.step .b .none])).gack2 = 8 ∧
+    (run { fixed := fixed, mfail := true } (witnessE ++ [.step .b .none])).F2.get 8 = some [0xb8] ∧
+    (run { fixed := fixed, mfail := true } (witnessE ++ [.step .b .none])).F2.get 5 = none := by
+  cases fixed <;> decide
 
 /-- the un-hedged soundness clause ("a ready channel with a live stream never treats a position as
-acknowledged that the follower has not appended") fails with two followers and leader tail loss -/
+acknowledged that the follower has not appended") fails with two followers and leader tail loss, in
+either shape of the guard and of Replica's else-branch -/
 theorem ack_sound_synced_full_fails (cfg : Cfg) :
     ¬ (∀ evs : List Ev, (run cfg evs).chan2 = .ready → (run cfg evs).stream2 = .up →
         (run cfg evs).gack2 ≤ (run cfg evs).F2.app) := by
   intro h
   have w := other_follower_moves_group cfg
-  have := h witnessE w.1 w.2.1
-  rw [w.2.2.2.1, w.2.2.2.2.1] at this
+  have := h witnessE0 w.1 w.2.1
+  rw [w.2.2.2.1, w.2.2.2.2.2.1] at this
   omega
 
 /-- (4) A storage fault on the follower: its `Put` fails once while the connection is healthy. The
 handler answers `AckIndex = -1` with `Err` set; the leader ignores `resp.Err`, sees -1 ≠ sent index
-and takes the "TODO: need reset" branch: nothing is acknowledged (sound), but the channel stays `ready`
-with the replica index one past the follower's next index, so every later message is refused and the
-channel does not resynchronise until something breaks the stream. -/
+and takes the "TODO: need reset" branch: nothing is acknowledged (sound), but — in the tree as it is —
+the channel stays `ready` with the replica index one past the follower's next index, so every later
+message is refused and the channel does not resynchronise until something breaks the stream. -/
 def witnessP : List Ev :=
   [.append [0xa0], .step .a .none, .append [0xa1], .step .a .put, .append [0xa2], .step .a .none, .append [0xa3], .step .a .none]
 
-theorem put_fault_wedges_channel (cfg : Cfg) :
-    Synced (run cfg witnessP) ∧ (run cfg witnessP).gack = 0 ∧ (run cfg witnessP).F.app = 0 ∧
-    (run cfg witnessP).cons = 3 ∧ (run cfg witnessP).L.app = 3 ∧
-    (next cfg (run cfg (witnessP ++ [.append [0xa4]])) (.step .a .none)).2 = .mismatch := by
-  cases cfg with
-  | mk fixed => cases fixed <;> decide
+theorem put_fault_wedges_channel (fixed : Bool) :
+    Synced (run { fixed := fixed, mfail := false } witnessP) ∧ (run { fixed := fixed, mfail := false } witnessP).gack = 0 ∧
+    (run { fixed := fixed, mfail := false } witnessP).F.app = 0 ∧
+    (run { fixed := fixed, mfail := false } witnessP).cons = 3 ∧ (run { fixed := fixed, mfail := false } witnessP).L.app = 3 ∧
+    (next { fixed := fixed, mfail := false } (run { fixed := fixed, mfail := false } (witnessP ++ [.append [0xa4]])) (.step .a .none)).2 = .mismatch := by
+  cases fixed <;> decide
 
 /-- ... and the first stream fault afterwards (noticed with the next message) repairs it -/
-theorem put_fault_recovers_after_stream_fault (cfg : Cfg) :
-    Synced (run cfg (witnessP ++ [.frestart .a, .append [0xa4], .step .a .none, .step .a .none, .step .a .none, .step .a .none, .step .a .none])) ∧
-    (run cfg (witnessP ++ [.frestart .a, .append [0xa4], .step .a .none, .step .a .none, .step .a .none, .step .a .none, .step .a .none])).F.app = 4 := by
-  cases cfg with
-  | mk fixed => cases fixed <;> decide
+theorem put_fault_recovers_after_stream_fault (fixed : Bool) :
+    Synced (run { fixed := fixed, mfail := false } (witnessP ++ [.frestart .a, .append [0xa4], .step .a .none, .step .a .none, .step .a .none, .step .a .none, .step .a .none])) ∧
+    (run { fixed := fixed, mfail := false } (witnessP ++ [.frestart .a, .append [0xa4], .step .a .none, .step .a .none, .step .a .none, .step .a .none, .step .a .none])).F.app = 4 := by
+  cases fixed <;> decide
+
+/-- the repaired shape on the same history: the follower has caught up by the end, no stream fault needed
+(the general statement is `resync_after_put_fault`) -/
+theorem put_fault_repaired (fixed : Bool) :
+    Synced (run { fixed := fixed, mfail := true } (witnessP ++ [.step .a .none])) ∧
+    (run { fixed := fixed, mfail := true } (witnessP ++ [.step .a .none])).F.app = 3 ∧
+    (run { fixed := fixed, mfail := true } (witnessP ++ [.step .a .none])).gack = 3 := by
+  cases fixed <;> decide
 
 end Neg
 
